@@ -99,7 +99,7 @@ func (d *dirClient) simple(op *berx.Node, want int) (int, error) {
 	if err := d.c.Send(lx.Envelope(d.msgid, op, nil)); err != nil {
 		return -1, err
 	}
-	m, err := d.c.Recv(5 * time.Second)
+	m, err := recvPatient(d.c, 5*time.Second)
 	if err != nil {
 		return -1, err
 	}
@@ -130,7 +130,7 @@ func (d *dirClient) searchF(base string, f *berx.Node, rev map[string]string) ([
 	}
 	out := []dEntry{}
 	for {
-		m, err := d.c.Recv(5 * time.Second)
+		m, err := recvPatient(d.c, 5*time.Second)
 		if err != nil {
 			return nil, -1, err
 		}
